@@ -188,6 +188,16 @@ func genMetaValue(r *rand.Rand) (string, string) {
 }
 
 func genMeta(r *rand.Rand) ([]kv, string, string) {
+	if r.Intn(20) == 0 {
+		// a crowd of small entries (well inside the 2 KB S3 allows for user metadata): the count, not the size, is
+		// what is unusual
+		n := 30 + r.Intn(45)
+		var out []kv
+		for i := 0; i < n; i++ {
+			out = append(out, kv{fmt.Sprintf("k%02d", i), randWord(r, alnum, 1, 6)})
+		}
+		return out, []string{"x-amz-meta-", "X-Amz-Meta-"}[r.Intn(2)], "m-crowd"
+	}
 	n := 0
 	switch x := r.Intn(20); {
 	case x < 5:
